@@ -78,6 +78,8 @@ def _make_cv(cfg):
     kind = cfg["cv"]
     if kind == "kfold":
         return KFold(n_splits=cfg["n_splits"], shuffle=True, random_state=cfg["seed"])
+    if kind == "blockkfold":
+        return vd.BlockKFold(shape=tuple(cfg["bshape"]), n_splits=cfg["n_splits"], shuffle=True, random_state=cfg["seed"])
     if kind == "shuffle":
         return ShuffleSplit(n_splits=cfg["n_splits"], test_size=cfg.get("test_size", 0.4), random_state=cfg["seed"])
     return None
@@ -107,6 +109,10 @@ def h_cross_val_score(ctx):
     darg = tuple(data) if ncomp > 1 else data[0]
     warg = None if weights is None else (tuple(weights) if ncomp > 1 else weights[0])
     feature = np.zeros((n, 2))
+    if cfg.get("members"):
+        # a blocked cross-validator sees the coordinates: the expected folds are those of the same splitter on (easting, northing) columns
+        _assume_members(ctx, e, no, cfg["members"], tuple(cfg["bshape"]))
+        feature = np.transpose((e.ravel(), no.ravel()))
     splits = list((cv or KFold(shuffle=True, random_state=0, n_splits=5)).split(feature))
     if scoring in (None, "r2") and ctx.sym:
         for _, test in splits:
@@ -201,6 +207,33 @@ def h_score(ctx):
     ctx.claim("score() does not refit", len(gridders.fits_of(est)) == 1)
 
 
+def _assume_members(ctx, e, no, members, bshape, spacing=None):
+    """every point lies strictly inside its block of the bshape layout of the region inferred from the points themselves
+    (border blocks reach the region's edge); with a spacing the inferred region is exactly bshape blocks of that size"""
+    region = vd.get_region((e, no))
+    ctx.assume(region[0] < region[1])
+    ctx.assume(region[2] < region[3])
+    if spacing:
+        ctx.assume(And(eq(region[1] - region[0], bshape[1] * Fraction(spacing[1])), eq(region[3] - region[2], bshape[0] * Fraction(spacing[0]))) if ctx.sym else bool(abs((region[1] - region[0]) - bshape[1] * spacing[1]) < 1e-9 and abs((region[3] - region[2]) - bshape[0] * spacing[0]) < 1e-9))
+    for p in range(e.size):
+        ev, nv = e.ravel()[p], no.ravel()[p]
+        i, j = divmod(members[p], bshape[1])
+        we = (region[1] - region[0]) / bshape[1]
+        hn = (region[3] - region[2]) / bshape[0]
+        ctx.assume(And(True if j == 0 else gt(ev, region[0] + j * we), True if j == bshape[1] - 1 else lt(ev, region[0] + (j + 1) * we), True if i == 0 else gt(nv, region[2] + i * hn), True if i == bshape[0] - 1 else lt(nv, region[2] + (i + 1) * hn)))
+    return region
+
+
+def _block_call_ok(ctx, call, ev, nv, shape, spacing):
+    k = call["kwargs"]
+    coords = k.get("coordinates", call["args"][0] if call["args"] else None)
+    if coords is None or len(coords) < 2 or np.shape(coords[0]) != np.shape(ev) or np.shape(coords[1]) != np.shape(nv):
+        return False
+    same = And([And(eq(a, b), eq(c, d)) for a, b, c, d in zip(coords[0], ev, coords[1], nv)])
+    sh, sp = k.get("shape"), k.get("spacing")
+    return And(same, (sh is None) if shape is None else (sh is not None and tuple(sh) == tuple(shape)), (sp is None) if spacing is None else (sp is not None and tuple(np.atleast_1d(sp)) == tuple(spacing)))
+
+
 def h_train_test_split(ctx):
     cfg = ctx.cfg
     n, ncomp = cfg["n"], cfg.get("ncomp", 1)
@@ -217,21 +250,19 @@ def h_train_test_split(ctx):
     members = cfg.get("members")
     if members:
         bshape = tuple(cfg["bshape"])
-        # region is inferred from the data: pin it with the points themselves (corner points present in `members`)
-        region = vd.get_region((e, no))
-        ctx.assume(region[0] < region[1])
-        ctx.assume(region[2] < region[3])
-        for p in range(n):
-            ev, nv = e.ravel()[p], no.ravel()[p]
-            i, j = divmod(members[p], bshape[1])
-            we = (region[1] - region[0]) / bshape[1]
-            hn = (region[3] - region[2]) / bshape[0]
-            ctx.assume(And(True if j == 0 else gt(ev, region[0] + j * we), True if j == bshape[1] - 1 else lt(ev, region[0] + (j + 1) * we), True if i == 0 else gt(nv, region[2] + i * hn), True if i == bshape[0] - 1 else lt(nv, region[2] + (i + 1) * hn)))
-        kw["shape"] = bshape
-    with warnings.catch_warnings():
+        _assume_members(ctx, e, no, members, bshape, cfg.get("spacing"))
+        if cfg.get("spacing"):
+            kw["spacing"] = tuple(cfg["spacing"])
+        else:
+            kw["shape"] = bshape
+    with warnings.catch_warnings(), stubs.recording(vms, "block_split") as rec:
         warnings.simplefilter("ignore")
         train, test = vd.train_test_split((e, no), darg, weights=warg, **kw)
     ev, nv = e.ravel(), no.ravel()
+    if members:
+        ctx.claim("blocks are built once, from (easting, northing) in that order and with the requested shape/spacing", And(len(rec.calls) == 1, _block_call_ok(ctx, rec.calls[0], ev, nv, kw.get("shape"), kw.get("spacing"))) if rec.calls else False)
+    else:
+        ctx.claim("without shape/spacing no blocks are built", len(rec.calls) == 0)
 
     def rows(part):
         coords, dat, wts = part
@@ -265,14 +296,18 @@ def h_train_test_split(ctx):
 class _CVSStub:
     "verde.spline.cross_val_score replaced by symbolic score vectors (one per candidate)"
 
-    def __init__(self, ctx, nsplits):
+    def __init__(self, ctx, nsplits, real=None):
         self.ctx = ctx
         self.nsplits = nsplits
         self.calls = []
+        self.real = real
 
     def __call__(self, estimator, coordinates, data, weights=None, cv=None, client=None, delayed=False, scoring=None):
         k = len(self.calls)
-        scores = self.ctx.reals("score%d" % k, self.nsplits)
+        if self.ctx.sym:
+            scores = self.ctx.reals("score%d" % k, self.nsplits)
+        else:  # replay: record the arguments and run the real cross-validation
+            scores = self.real(estimator, coordinates, data, weights=weights, cv=cv, client=client, delayed=delayed, scoring=scoring)
         self.calls.append({"params": estimator.get_params(), "scores": scores, "coordinates": coordinates, "data": data, "weights": weights, "scoring": scoring, "cv": cv, "delayed": delayed})
         return scores
 
@@ -300,12 +335,11 @@ def h_splinecv(ctx):
     if len(mindists) > 1 or mindists[0] != 0:
         kw["mindists"] = mindists
     grid = list(itertools.product(mindists, dampings))  # documented search order: every (mindist, damping) combination
-    stub = _CVSStub(ctx, 2)
+    old = vsp.cross_val_score
+    stub = _CVSStub(ctx, 2, old)
     stubs.reset_logs()
     stubs.SCALE_CONTRACT["exact"] = False
-    old = vsp.cross_val_score
-    if ctx.sym:
-        vsp.cross_val_score = stub
+    vsp.cross_val_score = stub
     coords = (e, n)
     try:
         with warnings.catch_warnings():
@@ -323,11 +357,14 @@ def h_splinecv(ctx):
     finally:
         vsp.cross_val_score = old
     ctx.claim("one mean score per candidate", len(scv.scores_) == len(grid))
+    if len(scv.scores_) != len(grid):
+        return
     means = [s for s in np.asarray(scv.scores_ if not cfg.get("delayed") else [x.compute() if hasattr(x, "compute") else x for x in scv.scores_], dtype=object)]
-    if ctx.sym:
-        ctx.claim("every candidate is scored once, in the order of the (mindist, damping) grid", And(len(stub.calls) == len(grid), all(c["params"]["damping"] == dm and c["params"]["mindist"] == md for c, (md, dm) in zip(stub.calls, grid))))
+    ctx.claim("every candidate is scored once, in the order of the (mindist, damping) grid", And(len(stub.calls) == len(grid), all(c["params"]["damping"] == dm and c["params"]["mindist"] == md for c, (md, dm) in zip(stub.calls, grid))))
+    if True:
         for k, c in enumerate(stub.calls):
-            ctx.claim("candidate's score is the mean of its cross-validation scores", eq(means[k], sum(c["scores"]) / len(c["scores"])))
+            if ctx.sym:
+                ctx.claim("candidate's score is the mean of its cross-validation scores", eq(means[k], sum(c["scores"]) / len(c["scores"])))
             ctx.claim("every candidate is cross-validated on the caller's coordinates, data and weights with SplineCV's own cv, scoring and delayed settings", And(c["coordinates"] is coords, c["data"] is d, c["weights"] is w, c["cv"] is cv, c["scoring"] == scoring, bool(c["delayed"]) == bool(cfg.get("delayed", False))))
     best = [k for k, (md, dm) in enumerate(grid) if dm == scv.spline_.damping and md == scv.spline_.mindist]
     ctx.claim("the selected model is a Spline with one of the candidate parameter sets", len(best) == 1 and isinstance(scv.spline_, vd.Spline))
@@ -362,6 +399,8 @@ def _cfg_cvs(tier, seed):
         {"n": 5, "cv": "kfold", "n_splits": 2, "seed": 6, "scoring": "neg_mean_squared_error", "weighted": True, "delayed": True, "reverse": True},
         {"n": 5, "cv": "kfold", "n_splits": 2, "seed": 2, "scoring": "neg_mean_absolute_error", "weighted": True},
         {"n": 6, "cv": "kfold", "n_splits": 2, "seed": 4, "scoring": "neg_mean_squared_error", "weighted": True, "shape": (2, 3), "fortran": True},
+        {"n": 4, "cv": "blockkfold", "n_splits": 2, "seed": 0, "scoring": "neg_mean_squared_error", "members": [0, 1, 1, 0], "bshape": (1, 2)},
+        {"n": 4, "cv": "kfold", "n_splits": 2, "seed": 5, "scoring": None, "weighted": True},
     ]
     if tier == "quick":
         return q
@@ -388,8 +427,8 @@ HARNESSES = [
     Harness(
         "train_test_split",
         h_train_test_split,
-        lambda tier, seed: [{"n": 5, "seed": 0, "ncomp": 2, "weighted": True}, {"n": 4, "seed": 1, "shape": (2, 2)}, {"n": 6, "seed": 3, "shape": (2, 3), "fortran": True, "weighted": True}, {"n": 5, "seed": 2, "members": [0, 3, 3, 1, 0], "bshape": (2, 2), "test_size": 0.34, "weighted": True}] + ([{"n": 6, "seed": seed, "members": [0, 3, 2, 1, 0, 3], "bshape": (2, 2), "test_size": 0.5, "ncomp": 2}] if tier == "thorough" else []),
-        bounds="4-6 symbolic rows, 1-2 components, weights or none; random and blocked (2x2 blocks, enumerated membership) splits with concrete seeds",
+        lambda tier, seed: [{"n": 5, "seed": 0, "ncomp": 2, "weighted": True}, {"n": 4, "seed": 1, "shape": (2, 2)}, {"n": 6, "seed": 3, "shape": (2, 3), "fortran": True, "weighted": True}, {"n": 5, "seed": 2, "members": [0, 3, 3, 1, 0], "bshape": (2, 2), "test_size": 0.34, "weighted": True}, {"n": 4, "seed": 1, "members": [0, 1, 1, 0], "bshape": (1, 2), "test_size": 0.5}, {"n": 4, "seed": 2, "members": [0, 1, 1, 0], "bshape": (1, 2), "spacing": (3.0, 2.0), "test_size": 0.5}] + ([{"n": 6, "seed": seed, "members": [0, 3, 2, 1, 0, 3], "bshape": (2, 2), "test_size": 0.5, "ncomp": 2}] if tier == "thorough" else []),
+        bounds="4-6 symbolic rows, 1-2 components, weights or none; random and blocked (2x2 and 1x2 blocks by shape or by (s_north, s_east) spacing, enumerated membership) splits with concrete seeds",
         stubs=["block_split -> C08 contract"],
         extra_globals=_globals,
         engine={"oneshot": True},
